@@ -17,6 +17,10 @@ pub struct SingleCase {
     pub spec: GraphSpec,
     pub cfg: RunCfg,
     pub acts: Vec<Act>,
+    /// What the (fresh) thread did before this run: another run, on another graph.
+    /// A run must not depend on it (thread-local scratch state of the library).
+    #[serde(default)]
+    pub pre: Option<Box<SingleCase>>,
 }
 
 pub enum Schedule<'a, 'b> {
